@@ -1,6 +1,7 @@
 import FpVerif.Lemmas.IterTerm
 import FpVerif.Lemmas.IterPre
 import FpVerif.Lemmas.PipeSim
+import FpVerif.Lemmas.PipeBound
 import FpVerif.Lemmas.IterPanic
 /-!
 # C12 — Iterator combinators agree with eager Seq semantics, terminate, and are lazy
@@ -204,167 +205,242 @@ inside `FlatMap` callbacks); `Pipe.build` runs the constructors (`Drop`'s loop, 
 first pull), `Pipe.machine` is the resulting iterator and `Pipe.parts` its `concat` field.  The
 oracle runs exactly these definitions. -/
 
-/-- EVERY pipeline: building it succeeds, and the iterator represents the list its denotation
-    computes.  The statement is the joint invariant `Pipe.Joint` of the iterator and its `concat`
+/-- EVERY pipeline, EVERY fuel above the bound, lists of EVERY length: building the pipeline
+    succeeds, and the iterator represents the list its denotation computes.  `Pipe.WB` asks only that
+    the callbacks do not panic (and excludes the unbounded `Generate`); there is NO bound on the
+    length of the data: `fuel` is a parameter of the machines (`Pipe.machineF fuel`), and the
+    statement holds for every `fuel > Pipe.need p x` — the longest list that reaches one of the loops
+    that are unbounded in Go.  (Go has no fuel: `fuel` only makes the model's loops structurally
+    recursive; `outOfFuel` never arises above the bound.)
+
+    The statement is the joint invariant `Pipe.JointF` of the iterator and its `concat`
     field, which is what makes the induction go through `x.Concat(y).Drop(n).Concat(z)`: `Drop`
     consumes through the first `Concat` iterator, the second `Concat` then iterates over the
     flattened components `[x, y, z]` sharing that state — and finds the components before
     `currentItr` exhausted (`ConcatInv`). -/
-theorem pipe_joint (p : Pipe) : ∀ (x : Val), p.OK x → ∀ lg : Log,
-    ∃ (s : p.St) (lg' : Log), (p.build x).run.run lg = (.ok s, lg') ∧ Pipe.Joint p s (p.denote x) := by
+theorem pipe_jointF (p : Pipe) : ∀ (x : Val), p.WB x → ∀ (fuel : Nat), p.need x < fuel → ∀ lg : Log,
+    ∃ (s : p.St) (lg' : Log), (p.buildF fuel x).run.run lg = (.ok s, lg') ∧ Pipe.JointF fuel p s (p.denote x) := by
   induction p with
   | src id xs =>
-    intro x _ lg
-    refine ⟨(0 : Nat), lg, by rw [Pipe.build]; rfl, Pipe.Joint.ofRepresents (Pipe.parts_single _ (by intros; simp) (by intros; simp)) ?_⟩
-    rw [Pipe.machine]; exact ofSeq_represents _ xs
+    intro x _ fuel _ lg
+    refine ⟨(0 : Nat), lg, by rw [Pipe.buildF]; rfl, Pipe.JointF.ofRepresents (Pipe.partsF_single _ _ (by intros; simp) (by intros; simp)) ?_⟩
+    rw [Pipe.machineF]; exact ofSeq_represents _ xs
   | seq xs =>
-    intro x _ lg
-    refine ⟨(0 : Nat), lg, by rw [Pipe.build]; rfl, Pipe.Joint.ofRepresents (Pipe.parts_single _ (by intros; simp) (by intros; simp)) ?_⟩
-    rw [Pipe.machine]; exact ofSeq_represents _ xs
+    intro x _ fuel _ lg
+    refine ⟨(0 : Nat), lg, by rw [Pipe.buildF]; rfl, Pipe.JointF.ofRepresents (Pipe.partsF_single _ _ (by intros; simp) (by intros; simp)) ?_⟩
+    rw [Pipe.machineF]; exact ofSeq_represents _ xs
   | arg n =>
-    intro x _ lg
+    intro x _ fuel _ lg
     refine ⟨((List.range n).map (fun (i : Nat) => Val.int (x.asInt + (i : Int))), (0 : Nat)), lg,
-      by rw [Pipe.build]; rfl, Pipe.Joint.ofRepresents (Pipe.parts_single _ (by intros; simp) (by intros; simp)) ?_⟩
-    rw [Pipe.machine]
+      by rw [Pipe.buildF]; rfl, Pipe.JointF.ofRepresents (Pipe.partsF_single _ _ (by intros; simp) (by intros; simp)) ?_⟩
+    rw [Pipe.machineF]
     exact ⟨_, ofSeqS_sim _, rfl, by simp [ofSeqRel, Pipe.denote]⟩
-  | gen id start step => intro x h; exact absurd h (by simp [Pipe.OK])
+  | gen id start step => intro x h; exact absurd h (by simp [Pipe.WB])
   | range closed a b =>
-    intro x _ lg
-    refine ⟨a, lg, by rw [Pipe.build]; rfl, Pipe.Joint.ofRepresents (Pipe.parts_single _ (by intros; simp) (by intros; simp)) ?_⟩
-    rw [Pipe.machine]
+    intro x _ fuel _ lg
+    refine ⟨a, lg, by rw [Pipe.buildF]; rfl, Pipe.JointF.ofRepresents (Pipe.partsF_single _ _ (by intros; simp) (by intros; simp)) ?_⟩
+    rw [Pipe.machineF]
     exact map_represents _ Val.int (total_pure Val.int) _ _ _ (range_represents closed a b)
   | opt o =>
-    intro x _ lg
-    refine ⟨true, lg, by rw [Pipe.build]; rfl, Pipe.Joint.ofRepresents (Pipe.parts_single _ (by intros; simp) (by intros; simp)) ?_⟩
-    rw [Pipe.machine]; exact ofOption_represents o
+    intro x _ fuel _ lg
+    refine ⟨true, lg, by rw [Pipe.buildF]; rfl, Pipe.JointF.ofRepresents (Pipe.partsF_single _ _ (by intros; simp) (by intros; simp)) ?_⟩
+    rw [Pipe.machineF]; exact ofOption_represents o
   | empty =>
-    intro x _ lg
-    refine ⟨(), lg, by rw [Pipe.build]; rfl, Pipe.Joint.ofRepresents (Pipe.parts_single _ (by intros; simp) (by intros; simp)) ?_⟩
-    rw [Pipe.machine]; exact empty_represents
+    intro x _ fuel _ lg
+    refine ⟨(), lg, by rw [Pipe.buildF]; rfl, Pipe.JointF.ofRepresents (Pipe.partsF_single _ _ (by intros; simp) (by intros; simp)) ?_⟩
+    rw [Pipe.machineF]; exact empty_represents
   | zero =>
-    intro x _ lg
-    refine ⟨(), lg, by rw [Pipe.build]; rfl, Pipe.Joint.ofRepresents (Pipe.parts_single _ (by intros; simp) (by intros; simp)) ?_⟩
-    rw [Pipe.machine]; exact ⟨_, zero_sim, rfl⟩
+    intro x _ fuel _ lg
+    refine ⟨(), lg, by rw [Pipe.buildF]; rfl, Pipe.JointF.ofRepresents (Pipe.partsF_single _ _ (by intros; simp) (by intros; simp)) ?_⟩
+    rw [Pipe.machineF]; exact ⟨_, zero_sim, rfl⟩
   | rev xs =>
-    intro x _ lg
-    refine ⟨xs.length, lg, by rw [Pipe.build]; rfl, Pipe.Joint.ofRepresents (Pipe.parts_single _ (by intros; simp) (by intros; simp)) ?_⟩
-    rw [Pipe.machine]; exact reverseSeq_represents xs
+    intro x _ fuel _ lg
+    refine ⟨xs.length, lg, by rw [Pipe.buildF]; rfl, Pipe.JointF.ofRepresents (Pipe.partsF_single _ _ (by intros; simp) (by intros; simp)) ?_⟩
+    rw [Pipe.machineF]; exact reverseSeq_represents xs
   | pullseq id xs =>
-    intro x _ lg
+    intro x _ fuel _ lg
     obtain ⟨s', v, lg', e, hR⟩ := pull_represents (ofSeq (some (srcTag id)) xs) 0 xs (ofSeq_represents _ xs) none lg
-    refine ⟨(s', v), lg', ?_, Pipe.Joint.ofRepresents (Pipe.parts_single _ (by intros; simp) (by intros; simp)) ?_⟩
-    · rw [Pipe.build]
-      show Pipe.build.runInit (pullInit (ofSeq (some (srcTag id)) xs)) ((0 : Nat), none) lg = _
-      simp only [Pipe.build.runInit, e]
+    refine ⟨(s', v), lg', ?_, Pipe.JointF.ofRepresents (Pipe.partsF_single _ _ (by intros; simp) (by intros; simp)) ?_⟩
+    · rw [Pipe.buildF]
+      show Pipe.buildF.runInit (pullInit (ofSeq (some (srcTag id)) xs)) ((0 : Nat), none) lg = _
+      simp only [Pipe.buildF.runInit, e]
       rfl
-    · rw [Pipe.machine]; exact hR
+    · rw [Pipe.machineF]; exact hR
   | map p f ih =>
-    intro x hok lg
-    obtain ⟨s, lg', e, hJ⟩ := ih x hok.1 lg
-    refine ⟨s, lg', by rw [Pipe.build]; exact e, Pipe.Joint.ofRepresents (Pipe.parts_single _ (by intros; simp) (by intros; simp)) ?_⟩
-    rw [Pipe.machine]; exact map_represents f _ hok.2 _ _ _ hJ.represents
+    intro x hok fuel hneed lg
+    obtain ⟨s, lg', e, hJ⟩ := ih x hok.1 fuel hneed lg
+    refine ⟨s, lg', by rw [Pipe.buildF]; exact e, Pipe.JointF.ofRepresents (Pipe.partsF_single _ _ (by intros; simp) (by intros; simp)) ?_⟩
+    rw [Pipe.machineF]; exact map_represents f _ hok.2 _ _ _ hJ.represents
   | tap p f ih =>
-    intro x hok lg
-    obtain ⟨s, lg', e, hJ⟩ := ih x hok.1 lg
-    refine ⟨s, lg', by rw [Pipe.build]; exact e, Pipe.Joint.ofRepresents (Pipe.parts_single _ (by intros; simp) (by intros; simp)) ?_⟩
-    rw [Pipe.machine]; exact tapEach_represents f hok.2 _ _ _ hJ.represents
+    intro x hok fuel hneed lg
+    obtain ⟨s, lg', e, hJ⟩ := ih x hok.1 fuel hneed lg
+    refine ⟨s, lg', by rw [Pipe.buildF]; exact e, Pipe.JointF.ofRepresents (Pipe.partsF_single _ _ (by intros; simp) (by intros; simp)) ?_⟩
+    rw [Pipe.machineF]; exact tapEach_represents f hok.2 _ _ _ hJ.represents
   | take p n ih =>
-    intro x hok lg
-    obtain ⟨s, lg', e, hJ⟩ := ih x hok lg
-    refine ⟨(s, (0 : Nat)), lg', by rw [Pipe.build, gom_bind_ok e]; rfl,
-      Pipe.Joint.ofRepresents (Pipe.parts_single _ (by intros; simp) (by intros; simp)) ?_⟩
-    rw [Pipe.machine]; exact take_represents n _ _ _ hJ.represents
+    intro x hok fuel hneed lg
+    obtain ⟨s, lg', e, hJ⟩ := ih x hok fuel hneed lg
+    refine ⟨(s, (0 : Nat)), lg', by rw [Pipe.buildF, gom_bind_ok e]; rfl, Pipe.JointF.ofRepresents (Pipe.partsF_single _ _ (by intros; simp) (by intros; simp)) ?_⟩
+    rw [Pipe.machineF]; exact take_represents n _ _ _ hJ.represents
   | drop p n ih =>
-    intro x hok lg
-    obtain ⟨s, lg1, e, hJ⟩ := ih x hok lg
+    intro x hok fuel hneed lg
+    obtain ⟨s, lg1, e, hJ⟩ := ih x hok fuel hneed lg
     obtain ⟨s', lg', e2, hJ'⟩ := hJ.drop n lg1
     refine ⟨s', lg', ?_, hJ'⟩
-    rw [Pipe.build, gom_bind_ok e]
-    show Pipe.build.runInit (It.drop n (Pipe.machine p)) s lg1 = _
-    simp only [Pipe.build.runInit, e2]
+    rw [Pipe.buildF, gom_bind_ok e]
+    show Pipe.buildF.runInit (It.drop n (Pipe.machineF fuel p)) s lg1 = _
+    simp only [Pipe.buildF.runInit, e2]
     rfl
   | takew p f ih =>
-    intro x hok lg
-    obtain ⟨s, lg', e, hJ⟩ := ih x hok.1 lg
-    refine ⟨(s, {}), lg', by rw [Pipe.build, gom_bind_ok e]; rfl,
-      Pipe.Joint.ofRepresents (Pipe.parts_single _ (by intros; simp) (by intros; simp)) ?_⟩
-    rw [Pipe.machine]; exact takeWhile_represents f _ hok.2 _ _ _ hJ.represents
+    intro x hok fuel hneed lg
+    obtain ⟨s, lg', e, hJ⟩ := ih x hok.1 fuel hneed lg
+    refine ⟨(s, {}), lg', by rw [Pipe.buildF, gom_bind_ok e]; rfl, Pipe.JointF.ofRepresents (Pipe.partsF_single _ _ (by intros; simp) (by intros; simp)) ?_⟩
+    rw [Pipe.machineF]; exact takeWhile_represents f _ hok.2 _ _ _ hJ.represents
   | dropw p f ih =>
-    intro x hok lg
-    obtain ⟨s, lg', e, hJ⟩ := ih x hok.1 lg
-    refine ⟨(s, {}), lg', by rw [Pipe.build, gom_bind_ok e]; rfl,
-      Pipe.Joint.ofRepresents (Pipe.parts_single _ (by intros; simp) (by intros; simp)) ?_⟩
-    rw [Pipe.machine]; exact dropWhile_represents f _ hok.2.1 _ _ _ hJ.represents FUEL hok.2.2
+    intro x hok fuel hneed lg
+    obtain ⟨hn1, hn2⟩ := Nat.max_lt.mp hneed
+    obtain ⟨s, lg', e, hJ⟩ := ih x hok.1 fuel hn1 lg
+    refine ⟨(s, {}), lg', by rw [Pipe.buildF, gom_bind_ok e]; rfl, Pipe.JointF.ofRepresents (Pipe.partsF_single _ _ (by intros; simp) (by intros; simp)) ?_⟩
+    rw [Pipe.machineF]; exact dropWhile_represents f _ hok.2 _ _ _ hJ.represents fuel hn2
   | filter p f ih =>
-    intro x hok lg
-    obtain ⟨s, lg', e, hJ⟩ := ih x hok.1 lg
-    refine ⟨(s, {}), lg', by rw [Pipe.build, gom_bind_ok e]; rfl,
-      Pipe.Joint.ofRepresents (Pipe.parts_single _ (by intros; simp) (by intros; simp)) ?_⟩
-    rw [Pipe.machine]; exact filter_represents f _ hok.2.1 _ _ _ hJ.represents FUEL hok.2.2
+    intro x hok fuel hneed lg
+    obtain ⟨hn1, hn2⟩ := Nat.max_lt.mp hneed
+    obtain ⟨s, lg', e, hJ⟩ := ih x hok.1 fuel hn1 lg
+    refine ⟨(s, {}), lg', by rw [Pipe.buildF, gom_bind_ok e]; rfl, Pipe.JointF.ofRepresents (Pipe.partsF_single _ _ (by intros; simp) (by intros; simp)) ?_⟩
+    rw [Pipe.machineF]; exact filter_represents f _ hok.2 _ _ _ hJ.represents fuel hn2
   | filternot p f ih =>
-    intro x hok lg
-    obtain ⟨s, lg', e, hJ⟩ := ih x hok.1 lg
-    refine ⟨(s, {}), lg', by rw [Pipe.build, gom_bind_ok e]; rfl,
-      Pipe.Joint.ofRepresents (Pipe.parts_single _ (by intros; simp) (by intros; simp)) ?_⟩
-    rw [Pipe.machine]; exact filterNot_represents f _ hok.2.1 _ _ _ hJ.represents FUEL hok.2.2
+    intro x hok fuel hneed lg
+    obtain ⟨hn1, hn2⟩ := Nat.max_lt.mp hneed
+    obtain ⟨s, lg', e, hJ⟩ := ih x hok.1 fuel hn1 lg
+    refine ⟨(s, {}), lg', by rw [Pipe.buildF, gom_bind_ok e]; rfl, Pipe.JointF.ofRepresents (Pipe.partsF_single _ _ (by intros; simp) (by intros; simp)) ?_⟩
+    rw [Pipe.machineF]; exact filterNot_represents f _ hok.2 _ _ _ hJ.represents fuel hn2
   | concat p q ihp ihq =>
-    intro x hok lg
-    obtain ⟨s, lg1, e1, hJ1⟩ := ihp x hok.1 lg
-    obtain ⟨t, lg2, e2, hJ2⟩ := ihq x hok.2 lg1
-    exact ⟨((s, t), {}), lg2, by rw [Pipe.build, gom_bind_ok e1, gom_bind_ok e2]; rfl, hJ1.concat hJ2⟩
+    intro x hok fuel hneed lg
+    obtain ⟨hn1, hn2⟩ := Nat.max_lt.mp hneed
+    obtain ⟨s, lg1, e1, hJ1⟩ := ihp x hok.1 fuel hn1 lg
+    obtain ⟨t, lg2, e2, hJ2⟩ := ihq x hok.2 fuel hn2 lg1
+    exact ⟨((s, t), {}), lg2, by rw [Pipe.buildF, gom_bind_ok e1, gom_bind_ok e2]; rfl, hJ1.concat hJ2⟩
   | flatmap p pre k ihp ihk =>
-    intro x hok lg
-    obtain ⟨hokp, hpre, hokk, hlen⟩ := hok
-    obtain ⟨s, lg', e, hJ⟩ := ihp x hokp lg
-    refine ⟨(s, none), lg', by rw [Pipe.build, gom_bind_ok e]; rfl,
-      Pipe.Joint.ofRepresents (Pipe.parts_single _ (by intros; simp) (by intros; simp)) ?_⟩
-    rw [Pipe.machine]
-    refine ⟨_, flatMap_simG (Represents.sim (Pipe.machine k)) (fun a => k.denote a) FUEL
-      (Represents.sim (Pipe.machine p)), [], p.denote x, hJ.represents, hlen, ?_, [], rfl, by simp [Pipe.denote],
+    intro x hok fuel hneed lg
+    obtain ⟨hokp, hpre, hokk⟩ := hok
+    obtain ⟨hn1, hn23⟩ := Nat.max_lt.mp hneed
+    obtain ⟨hlen, hn3⟩ := Nat.max_lt.mp hn23
+    obtain ⟨s, lg', e, hJ⟩ := ihp x hokp fuel hn1 lg
+    refine ⟨(s, none), lg', by rw [Pipe.buildF, gom_bind_ok e]; rfl, Pipe.JointF.ofRepresents (Pipe.partsF_single _ _ (by intros; simp) (by intros; simp)) ?_⟩
+    rw [Pipe.machineF]
+    refine ⟨_, flatMap_simG (Represents.sim (Pipe.machineF fuel k)) (fun a => k.denote a) fuel
+      (Represents.sim (Pipe.machineF fuel p)), [], p.denote x, hJ.represents, hlen, ?_, [], rfl, by simp [Pipe.denote],
       by simp⟩
     intro a ha lg0
     obtain ⟨lg1, e1⟩ := hpre a lg0
-    obtain ⟨t, lg2, e2, hJk⟩ := ihk a (hokk a ha) lg1
+    have hka : k.need a < fuel :=
+      Nat.lt_of_le_of_lt (Pipe.le_listMax (List.mem_map_of_mem (f := fun a => k.need a) ha)) hn3
+    obtain ⟨t, lg2, e2, hJk⟩ := ihk a (hokk a ha) fuel hka lg1
     exact ⟨t, lg2, by rw [gom_bind_ok e1]; exact e2, hJk.represents⟩
   | filtermap p f ih =>
-    intro x hok lg
-    obtain ⟨s, lg', e, hJ⟩ := ih x hok.1 lg
-    refine ⟨(s, none), lg', by rw [Pipe.build, gom_bind_ok e]; rfl,
-      Pipe.Joint.ofRepresents (Pipe.parts_single _ (by intros; simp) (by intros; simp)) ?_⟩
-    rw [Pipe.machine]; exact filterMap_represents f _ hok.2.1 _ _ _ hJ.represents FUEL hok.2.2
+    intro x hok fuel hneed lg
+    obtain ⟨hn1, hn2⟩ := Nat.max_lt.mp hneed
+    obtain ⟨s, lg', e, hJ⟩ := ih x hok.1 fuel hn1 lg
+    refine ⟨(s, none), lg', by rw [Pipe.buildF, gom_bind_ok e]; rfl, Pipe.JointF.ofRepresents (Pipe.partsF_single _ _ (by intros; simp) (by intros; simp)) ?_⟩
+    rw [Pipe.machineF]; exact filterMap_represents f _ hok.2 _ _ _ hJ.represents fuel hn2
   | scan p z f ih =>
-    intro x hok lg
-    obtain ⟨s, lg', e, hJ⟩ := ih x hok.1 lg
-    refine ⟨(s, { sum := z }), lg', by rw [Pipe.build, gom_bind_ok e]; rfl,
-      Pipe.Joint.ofRepresents (Pipe.parts_single _ (by intros; simp) (by intros; simp)) ?_⟩
-    rw [Pipe.machine]; exact scan_represents f _ hok.2 z _ _ _ hJ.represents
+    intro x hok fuel hneed lg
+    obtain ⟨s, lg', e, hJ⟩ := ih x hok.1 fuel hneed lg
+    refine ⟨(s, { sum := z }), lg', by rw [Pipe.buildF, gom_bind_ok e]; rfl, Pipe.JointF.ofRepresents (Pipe.partsF_single _ _ (by intros; simp) (by intros; simp)) ?_⟩
+    rw [Pipe.machineF]; exact scan_represents f _ hok.2 z _ _ _ hJ.represents
   | zip p q ihp ihq =>
-    intro x hok lg
-    obtain ⟨s, lg1, e1, hJ1⟩ := ihp x hok.1 lg
-    obtain ⟨t, lg2, e2, hJ2⟩ := ihq x hok.2 lg1
-    refine ⟨(s, t), lg2, by rw [Pipe.build, gom_bind_ok e1, gom_bind_ok e2]; rfl,
-      Pipe.Joint.ofRepresents (Pipe.parts_single _ (by intros; simp) (by intros; simp)) ?_⟩
-    rw [Pipe.machine]
+    intro x hok fuel hneed lg
+    obtain ⟨hn1, hn2⟩ := Nat.max_lt.mp hneed
+    obtain ⟨s, lg1, e1, hJ1⟩ := ihp x hok.1 fuel hn1 lg
+    obtain ⟨t, lg2, e2, hJ2⟩ := ihq x hok.2 fuel hn2 lg1
+    refine ⟨(s, t), lg2, by rw [Pipe.buildF, gom_bind_ok e1, gom_bind_ok e2]; rfl, Pipe.JointF.ofRepresents (Pipe.partsF_single _ _ (by intros; simp) (by intros; simp)) ?_⟩
+    rw [Pipe.machineF]
     exact map_represents _ (fun ab => Pipe.tupV ab.1 ab.2) (total_pure _) _ _ _
       (zip_represents _ _ _ _ _ _ hJ1.represents hJ2.represents)
   | zip3 p q r ihp ihq ihr =>
-    intro x hok lg
-    obtain ⟨s, lg1, e1, hJ1⟩ := ihp x hok.1 lg
-    obtain ⟨t, lg2, e2, hJ2⟩ := ihq x hok.2.1 lg1
-    obtain ⟨u, lg3, e3, hJ3⟩ := ihr x hok.2.2 lg2
-    refine ⟨(s, t, u), lg3, by rw [Pipe.build, gom_bind_ok e1, gom_bind_ok e2, gom_bind_ok e3]; rfl,
-      Pipe.Joint.ofRepresents (Pipe.parts_single _ (by intros; simp) (by intros; simp)) ?_⟩
-    rw [Pipe.machine, zip3_eq]
+    intro x hok fuel hneed lg
+    obtain ⟨hn1, hn23⟩ := Nat.max_lt.mp hneed
+    obtain ⟨hn2, hn3⟩ := Nat.max_lt.mp hn23
+    obtain ⟨s, lg1, e1, hJ1⟩ := ihp x hok.1 fuel hn1 lg
+    obtain ⟨t, lg2, e2, hJ2⟩ := ihq x hok.2.1 fuel hn2 lg1
+    obtain ⟨u, lg3, e3, hJ3⟩ := ihr x hok.2.2 fuel hn3 lg2
+    refine ⟨(s, t, u), lg3, by rw [Pipe.buildF, gom_bind_ok e1, gom_bind_ok e2, gom_bind_ok e3]; rfl, Pipe.JointF.ofRepresents (Pipe.partsF_single _ _ (by intros; simp) (by intros; simp)) ?_⟩
+    rw [Pipe.machineF, zip3_eq]
     exact map_represents _ (fun abc => Val.tup [abc.1, abc.2.1, abc.2.2]) (total_pure _) _ _ _
       (zip_represents _ _ _ _ _ _ hJ1.represents (zip_represents _ _ _ _ _ _ hJ2.represents hJ3.represents))
   | zipidx p ih =>
-    intro x hok lg
-    obtain ⟨s, lg', e, hJ⟩ := ih x hok lg
-    refine ⟨((0 : Nat), s), lg', by rw [Pipe.build, gom_bind_ok e]; rfl,
-      Pipe.Joint.ofRepresents (Pipe.parts_single _ (by intros; simp) (by intros; simp)) ?_⟩
-    rw [Pipe.machine]
+    intro x hok fuel hneed lg
+    obtain ⟨s, lg', e, hJ⟩ := ih x hok fuel hneed lg
+    refine ⟨((0 : Nat), s), lg', by rw [Pipe.buildF, gom_bind_ok e]; rfl, Pipe.JointF.ofRepresents (Pipe.partsF_single _ _ (by intros; simp) (by intros; simp)) ?_⟩
+    rw [Pipe.machineF]
     exact map_represents _ (fun ia => Pipe.tupV (.int ia.1) ia.2) (total_pure _) _ _ _
       (zipWithIndex_represents _ _ _ hJ.represents)
+
+/-- C12 for lists of EVERY length: every pipeline whose callbacks do not panic, run with any fuel
+    above the bound `Pipe.need`, yields exactly the elements of the eager computation
+    `Pipe.denote`, in the same order. -/
+theorem pipe_representsF (p : Pipe) (x : Val) (hwb : p.WB x) (fuel : Nat) (hfuel : p.need x < fuel) (lg : Log) :
+    ∃ (s : p.St) (lg' : Log), (p.buildF fuel x).run.run lg = (.ok s, lg') ∧
+      Represents (Pipe.machineF fuel p) s [] (p.denote x) := by
+  obtain ⟨s, lg', e, hJ⟩ := pipe_jointF p x hwb fuel hfuel lg
+  exact ⟨s, lg', e, hJ.represents⟩
+
+/-- "terminates on every finite input": for every well-behaved pipeline SUFFICIENT FUEL EXISTS —
+    the explicit bound `Pipe.need p x + 1` — and with it or any larger fuel, building the pipeline
+    and draining it (`ToSeq`, whose own loop needs `(denote).length + 1`) returns normally with the
+    eager result; in particular the model panic `outOfFuel` does not occur.  One number
+    `max (need) (length) + 1` serves both. -/
+theorem pipe_terminates (p : Pipe) (x : Val) (hwb : p.WB x) :
+    ∃ fuel0, fuel0 = Max.max (p.need x) (p.denote x).length + 1 ∧ ∀ fuel, fuel0 ≤ fuel → ∀ lg : Log,
+      ∃ s lg1 s' lg', (p.buildF fuel x).run.run lg = (.ok s, lg1) ∧
+        toSeq (Pipe.machineF fuel p) fuel [] s lg1 = (.ok (p.denote x), s', lg') ∧
+        Represents (Pipe.machineF fuel p) s' (p.denote x) [] := by
+  refine ⟨_, rfl, fun fuel hfuel lg => ?_⟩
+  have h1 : p.need x < fuel := Nat.lt_of_lt_of_le (Nat.lt_succ_of_le (Nat.le_max_left _ _)) hfuel
+  have h2 : (p.denote x).length < fuel := Nat.lt_of_lt_of_le (Nat.lt_succ_of_le (Nat.le_max_right _ _)) hfuel
+  obtain ⟨s, lg1, e, hR⟩ := pipe_representsF p x hwb fuel h1 lg
+  obtain ⟨s', lg', e2, hR'⟩ : ∃ s' lg', toSeq (Pipe.machineF fuel p) fuel [] s lg1 = (.ok (p.denote x), s', lg') ∧
+      Represents (Pipe.machineF fuel p) s' (p.denote x) [] := by
+    simpa using toSeq_spec (Represents.sim _) (p.denote x) fuel s [] [] lg1 h2 hR
+  exact ⟨s, lg1, s', lg', e, e2, hR'⟩
+
+/-- the bound, syntactically: `Pipe.needB p` and `Pipe.lenB p` are computed from the AST alone (lengths
+    of the source slices, nesting of the combinators — no callback is evaluated, no `FlatMap`
+    argument is needed).  Every fuel above `max (needB p) (lenB p)` builds and drains the pipeline
+    with the eager result, whatever the callbacks compute. -/
+theorem pipe_terminates_syntactic (p : Pipe) (x : Val) (hwb : p.WB x) (fuel : Nat)
+    (hfuel : Max.max p.needB p.lenB < fuel) (lg : Log) :
+    p.need x ≤ p.needB ∧ (p.denote x).length ≤ p.lenB ∧
+    ∃ s lg1 s' lg', (p.buildF fuel x).run.run lg = (.ok s, lg1) ∧
+      toSeq (Pipe.machineF fuel p) fuel [] s lg1 = (.ok (p.denote x), s', lg') ∧
+      Represents (Pipe.machineF fuel p) s' (p.denote x) [] := by
+  have h1 := Pipe.need_le_needB p x
+  have h2 := Pipe.denote_length_le p x
+  refine ⟨h1, h2, ?_⟩
+  obtain ⟨fuel0, rfl, h⟩ := pipe_terminates p x hwb
+  exact h fuel (by omega) lg
+
+/-- the amount of fuel is irrelevant above the bound: two fuels above `Pipe.need` give iterators on
+    which EVERY script of `HasNext`/`Next` calls observes the same thing (panic messages erased:
+    `Next` on the exhausted iterator panics either way) — namely what it observes on the list
+    `Pipe.denote p x`.  So the fuel constant of the oracle is not a semantic parameter. -/
+theorem pipe_fuel_irrelevant (p : Pipe) (x : Val) (hwb : p.WB x) (f1 f2 : Nat) (h1 : p.need x < f1) (h2 : p.need x < f2)
+    (cs : List Call) (lg : Log) :
+    ∃ s1 lg1 s2 lg2, (p.buildF f1 x).run.run lg = (.ok s1, lg1) ∧ (p.buildF f2 x).run.run lg = (.ok s2, lg2) ∧
+      (runScript (Pipe.machineF f1 p) cs s1 lg1).1.map Obs.erase = specScript cs (p.denote x) ∧
+      (runScript (Pipe.machineF f2 p) cs s2 lg2).1.map Obs.erase = specScript cs (p.denote x) := by
+  obtain ⟨s1, lg1, e1, hR1⟩ := pipe_representsF p x hwb f1 h1 lg
+  obtain ⟨s2, lg2, e2, hR2⟩ := pipe_representsF p x hwb f2 h2 lg
+  obtain ⟨_, _, _, _, ho1, _⟩ := runScript_sim (Represents.sim _) cs s1 [] (p.denote x) lg1 hR1
+  obtain ⟨_, _, _, _, ho2, _⟩ := runScript_sim (Represents.sim _) cs s2 [] (p.denote x) lg2 hR2
+  exact ⟨s1, lg1, s2, lg2, e1, e2, ho1, ho2⟩
+
+/-- EVERY pipeline (the machines the oracle runs: fuel constant `FUEL`; `Pipe.OK` = `Pipe.WB` and
+    `Pipe.need < FUEL`, `Pipe.OK_iff`): corollary of `pipe_jointF`. -/
+theorem pipe_joint (p : Pipe) : ∀ (x : Val), p.OK x → ∀ lg : Log,
+    ∃ (s : p.St) (lg' : Log), (p.build x).run.run lg = (.ok s, lg') ∧ Pipe.Joint p s (p.denote x) := by
+  intro x hok lg
+  obtain ⟨hwb, hneed⟩ := (Pipe.OK_iff p x).mp hok
+  exact pipe_jointF p x hwb FUEL hneed lg
 
 /-- EVERY pipeline represents the list its denotation computes. -/
 theorem pipe_represents (p : Pipe) (x : Val) (hok : p.OK x) (lg : Log) :
@@ -387,6 +463,26 @@ example (x : Val) : (Pipe.flatmap (.filter (.src 1 [.int 1, .int 2]) (fun _ => p
   refine ⟨⟨trivial, LL.Total.pure1 (total_pure (fun _ => true)), by simp [Pipe.denote, FUEL]⟩,
     LL.Total.pure1 (total_pure id), fun a _ => trivial, ?_⟩
   exact Nat.lt_of_le_of_lt (List.length_filter_le _ _) (by simp [Pipe.denote, FUEL])
+
+/-- the hypotheses of `pipe_representsF` are satisfiable — for a source of ANY length `n` (no bound):
+    `src.Filter(p).FlatMap(k)` over `n` elements is well-behaved and needs fuel `n` (+1). -/
+example (n : Nat) (x : Val) :
+    let p := Pipe.flatmap (.filter (.src 1 ((List.range n).map (fun (i : Nat) => Val.int i))) (fun _ => pure true)) (fun v => pure v)
+      (.zipidx (.take (.arg 3) 2))
+    p.WB x ∧ p.need x = n := by
+  intro p
+  have hlen : ((List.range n).map (fun (i : Nat) => Val.int i)).length = n := by simp
+  have hfl : (((List.range n).map (fun (i : Nat) => Val.int i)).filter (LL.pure1 (fun _ => (pure true : GoM Bool)))).length ≤ n :=
+    Nat.le_trans (List.length_filter_le _ _) (Nat.le_of_eq hlen)
+  refine ⟨⟨⟨trivial, LL.Total.pure1 (total_pure (fun _ => true))⟩, LL.Total.pure1 (total_pure id), fun a _ => trivial⟩, ?_⟩
+  show Max.max (Max.max 0 _) (Max.max _ (Pipe.listMax _)) = n
+  have hz : ∀ l : List Val, Pipe.listMax (l.map (fun a => (Pipe.zipidx (.take (.arg 3) 2)).need a)) = 0 := by
+    intro l; induction l with
+    | nil => rfl
+    | cons a l ih => simp only [List.map_cons, Pipe.listMax, ih]; rfl
+  rw [hz]
+  simp only [Pipe.denote, hlen]
+  omega
 
 /-! ## terminal operations -/
 
@@ -962,6 +1058,18 @@ theorem forAll_panic (f : α → GoM Bool) (g : α → Except PanicVal Bool) (hf
     ∃ s' lg' d', forAll f m fuel s lg = ((forAllE g l).1, s', lg') ∧
       Represents m s' d' (forAllE g l).2 ∧ d' ++ (forAllE g l).2 = l := by
   simpa using forAll_pspec hf (Represents.sim m) l fuel s [] lg hfuel h
+
+/-- `iterator.Fold` with a panicking step over EVERY pipeline, lists of every length, every fuel above
+    the bounds. -/
+theorem pipe_fold_panicF (p : Pipe) (x : Val) (hwb : p.WB x) (f : Val → Val → GoM Val)
+    (g : Val → Val → Except PanicVal Val) (hf : Outcome2 f g) (z : Val) (pfuel : Nat) (hpfuel : p.need x < pfuel)
+    (fuel : Nat) (hfuel : (p.denote x).length < fuel) (lg : Log) :
+    ∃ s lg1 s' lg' d', (p.buildF pfuel x).run.run lg = (.ok s, lg1) ∧
+      fold f (Pipe.machineF pfuel p) fuel z s lg1 = ((foldE g z (p.denote x)).1, s', lg') ∧
+      Represents (Pipe.machineF pfuel p) s' d' (foldE g z (p.denote x)).2 ∧ d' ++ (foldE g z (p.denote x)).2 = p.denote x := by
+  obtain ⟨s, lg1, e, hR⟩ := pipe_representsF p x hwb pfuel hpfuel lg
+  obtain ⟨s', lg', d', e2, hR', hd⟩ := fold_panic f g hf z _ s _ hR fuel hfuel lg1
+  exact ⟨s, lg1, s', lg', d', e, e2, hR', hd⟩
 
 /-- put together with `pipe_represents`: `iterator.Fold` with a panicking step over EVERY pipeline. -/
 theorem pipe_fold_panic (p : Pipe) (x : Val) (hok : p.OK x) (f : Val → Val → GoM Val)
